@@ -5,18 +5,18 @@ use crate::runtime::RunState;
 use crate::symbol::Span;
 use crate::{dprintln, AsmParser};
 
-pub fn eval(state: &mut RunState, line: &str) {
+pub fn eval(state: &mut RunState, orig: u16, line: &str) {
     // Required to make temporarily 'static
     // SAFETY: `line` is not used after being dropped (i.e. not returned or used in a greater
     // scope)
     let line_static = unsafe { &*(line as *const str) };
-    if let Err(err) = eval_inner(state, line_static) {
+    if let Err(err) = eval_inner(state, orig, line_static) {
         eprintln!("{:?}", err);
     }
 }
 
 /// Wrapper to group errors into one location
-fn eval_inner(state: &mut RunState, line: &'static str) -> Result<()> {
+fn eval_inner(state: &mut RunState, orig: u16, line: &'static str) -> Result<()> {
     // Parse
     let stmt = AsmParser::new_simple(line)?.parse_simple()?;
 
@@ -81,7 +81,9 @@ fn eval_inner(state: &mut RunState, line: &'static str) -> Result<()> {
     }
 
     // Check labels
-    let mut asm = AsmLine::new(0, stmt, Span::dummy());
+    // Label operands are resolved relative to the current PC, which (unlike in normal execution)
+    // has not been incremented past the simulated instruction
+    let mut asm = AsmLine::new(state.pc().wrapping_sub(orig), stmt, Span::dummy());
     asm.backpatch()?;
 
     // Compile and execute
